@@ -69,6 +69,7 @@ type storeState struct {
 	exhausted  bool
 	earlyExit  bool
 	loopCopies bool
+	copiedInto *eng.Term   // fresh map that received maps.Copy(fresh, internal)
 	appends    []*eng.Term // chain of append results (Keys)
 	appendBad  string
 	freshDirty []*eng.Term // fresh maps that received updates
@@ -88,6 +89,7 @@ func (s storeState) Key() string {
 	for _, a := range s.freshDirty {
 		sb.WriteString(a.Key() + ";")
 	}
+	sb.WriteString("|" + s.copiedInto.Key())
 	return sb.String()
 }
 func (s storeState) Terms() []*eng.Term {
@@ -101,6 +103,7 @@ func (s storeState) Terms() []*eng.Term {
 		add(o.key)
 		add(o.val)
 	}
+	add(s.copiedInto)
 	add(s.rngSrc)
 	add(s.rngOK)
 	add(s.rngK)
@@ -126,6 +129,7 @@ func (s storeState) Rename(sub func(*eng.Term) *eng.Term) eng.MState {
 		n.ops = append(n.ops, mapOp{o.kind, m(o.key), m(o.val), o.inLoop, o.underLock})
 	}
 	n.rngSrc, n.rngOK, n.rngK, n.rngV = m(s.rngSrc), m(s.rngOK), m(s.rngK), m(s.rngV)
+	n.copiedInto = m(s.copiedInto)
 	mp := func(xs []*eng.Term) []*eng.Term {
 		var o []*eng.Term
 		for _, x := range xs {
@@ -220,6 +224,11 @@ func (m *StoreMon) OnEvent(c *eng.Ctx, ms eng.MState, ev *eng.Event) eng.MState 
 						chk("C13.R5,C14.R4", "escape", false, "the store's internal map is passed to "+ev.Class+": it escapes the critical section")
 					}
 				}
+			}
+			if ev.Class == "call:maps.Copy" && len(ev.Args) == 2 && isFreshMap(ev.Args[0]) && m.isInternal(c, ev.Args[1]) {
+				// snapshot := make(...); maps.Copy(snapshot, internal): a complete copy into a fresh map
+				s.freshDirty = appendUniq(s.freshDirty, ev.Args[0], 4)
+				s.copiedInto = ev.Args[0]
 			}
 			if ev.Class == "call:maps.Copy" && len(ev.Args) == 2 && m.isInternal(c, ev.Args[0]) {
 				needWrite("maps.Copy into the store")
@@ -524,6 +533,8 @@ func (m *StoreMon) checkSpec(c *eng.Ctx, s storeState, ev *eng.Event) {
 		switch {
 		case r0.K == eng.KEv && c.E.SiteClass[r0.S] == "call:maps.Clone":
 			pass()
+		case r0.K == eng.KMake && s.copiedInto == r0:
+			pass() // make + maps.Copy(fresh, internal)
 		case r0.K == eng.KMake && s.rngSrc != nil && m.isInternal(c, s.rngSrc):
 			if s.iterBad != "" {
 				fail(s.iterBad)
